@@ -151,6 +151,8 @@ f_set_bit (void)
   if (sp->u.number > CONFIG_INT (__MAX_BITFIELD_BITS__))
     error ("set_bit() bit requested: %d > maximum bits: %d\n", sp->u.number,
            CONFIG_INT (__MAX_BITFIELD_BITS__));
+  if (sp->u.number < 0)	/* tested on the 64-bit value: -2147483649 truncates to a huge positive int */
+    error ("Bad argument 2 (negative) to set_bit().\n");
   bit = (int) (sp--)->u.number;
   if (bit < 0)
     error ("Bad argument 2 (negative) to set_bit().\n");
